@@ -887,16 +887,14 @@ def _nothing_dropped(ctx, sync, graph, loop, cvar):
                     cvar in [t for t, _c in key[2]] and any(
                         t.startswith((cmap + '[', cmap + '.get(')) for t, _c in key[2]):
                 return True
-            if key[0] == 'truth' and key[2] and 'cleanup_dir' in key[1] \
-                    and 'exists' in key[1]:
-                return True
         return False
     for node in pops:
         ok = K.guarded_by(graph, node, accounted, start=loop)
         ctx.ob('C13.7', sync, node, ok,
                'an entry leaves the to-configure map only when the '
-               'container it names is the one being handled (or the '
-               'instance is already in clean-up)' if ok else
+               'container it names is the one being handled (a container '
+               'in clean-up may be an older generation of the instance '
+               'the entry places)' if ok else
                'the cache entry is dropped although it names another '
                'generation: the placed instance would never be configured')
     finals = [n for n in graph.nodes if n.kind == 'for' and n is not loop
@@ -1119,6 +1117,10 @@ _A = 'lib/python/treadmill/appcfgmgr.py'
 _MO = 'lib/python/treadmill/monitor.py'
 
 MUTANTS = [
+    ('revert-F29-cleanup-branch-drops-entry-of-newer-generation', [(_A, """                if cached.get(appname) == container:
+                    cached.pop(appname, None)
+""", """                cached.pop(appname, None)
+""")], 'C13.7'),
     ('foreign-writer-of-the-running-dir', [('lib/python/treadmill/cleanup.py', '        cleanup_link = os.path.join(self.tm_env.cleanup_dir, instance)\n        try:\n            container_dir = os.readlink(cleanup_link)\n', '        cleanup_link = os.path.join(self.tm_env.cleanup_dir, instance)\n        fs.rm_safe(os.path.join(self.tm_env.running_dir, instance))\n        try:\n            container_dir = os.readlink(cleanup_link)\n')], 'C13.6'),
     ('cleanup-test-instance-only', [(_A, """            elif (os.path.exists(os.path.join(self.tm_env.cleanup_dir,
                                               appname)) or
